@@ -104,6 +104,53 @@ def step (s : St) (line : String) : St × String :=
     match parseNatList ids with
     | some ids => (put s r (.seg (fromSlice ids)), showSeg (fromSlice ids))
     | none => (s, bad)
+  | ["bseg", r, a, b, holes] =>
+    match a.toNat?, b.toNat?, parseNatList holes with
+    | some a, some b, some holes =>
+      if a > b ∨ b - a > 200000 then (s, bad)
+      else
+        let x := fromSlice ((rangeList a b).filter (fun v => !holes.contains v))
+        (put s r (.seg x), showSeg x)
+    | _, _, _ => (s, bad)
+  | ["qbig", r, a, b, holes] =>
+    match a.toNat?, b.toNat?, parseNatList holes with
+    | some a, some b, some holes =>
+      if a > b ∨ b - a > 200000 then (s, bad)
+      else
+        let x := fromSlice ((rangeList a b).filter (fun v => !holes.contains v))
+        (put s r (.seq [x]), showSeq [x])
+    | _, _, _ => (s, bad)
+  | ["scheck", a, ids] =>
+    match getSeg s a, parseNatList ids with
+    | some x, some ids =>
+      (s, s!"len={x.len} cnt={x.toList.length}" ++ String.join (ids.map (fun v =>
+        s!" {v}:" ++ (match x.position v with | some p => toString p | none => "-") ++ s!":{showBool (x.contains v)}")))
+    | _, _ => (s, bad)
+  | ["hpos", w, a, b, holes, probes] =>
+    match w.toNat?, a.toNat?, b.toNat?, parseNatList holes, parseNatList probes with
+    | some w, some a, some b, some holes, some probes =>
+      if a ≥ b ∨ !(holes.zip (holes.drop 1)).all (fun p => p.1 < p.2) ∨ holes.any (fun h => h < a ∨ h ≥ b) then (s, bad)
+      else
+        match Enc.withWidth w holes with
+        | none => (s, bad)
+        | some _ =>
+          let x := Seg.holes a b holes
+          (s, s!"len={x.len}" ++ String.join (probes.map (fun v =>
+            s!" {v}:" ++ (match x.position v with | some p => toString p | none => "-") ++ s!":{showBool (x.contains v)}")))
+    | _, _, _, _, _ => (s, bad)
+  | ["ebs", w, vals, probes] =>
+    match w.toNat?, parseNatList vals, parseNatList probes with
+    | some w, some vals, some probes =>
+      if vals.isEmpty ∨ !(vals.zip (vals.drop 1)).all (fun p => p.1 < p.2) then (s, bad)
+      else
+        match Enc.withWidth w vals with
+        | none => (s, bad)
+        | some e =>
+          (s, (String.join (probes.map (fun v =>
+              s!"{v}:" ++ (match e.binarySearch v with | some p => toString p | none => "-") ++ " ")) ++
+            String.join ((List.range (vals.length + 1)).map (fun i =>
+              s!"g{i}=" ++ (match e.get i with | some x => toString x | none => "-") ++ " "))).trimAsciiEnd.toString)
+    | _, _, _ => (s, bad)
   | ["enc", ids] =>
     match parseNatList ids with
     | some ids =>
